@@ -76,6 +76,15 @@ CLAIMS = {
         note="PARTIAL: the general (unbounded) theorem for the repaired protocol, one-winner and no-spurious for arbitrary trees are not yet proved; the model is hand-written at lock-block granularity and is tied "
              "to the code only through the directed replay and random real-thread runs, not step by step. SC only.",
         ref="4/C04, 8(a)"),
+    "C09": dict(
+        technique="Coq proof over a ticket-level state machine (invariant by induction over arbitrary step sequences, any number of threads); refutation theorems for the abort path; gate-driven exploration of the real concurrent_queue with an exhaustive linearizability oracle",
+        text="Proved: lane arithmetic (n_queue consecutive tickets -> distinct lanes, per-lane turn counter steps by n_queue); for the ticket protocol without abort, for any number of threads and any "
+             "interleaving: the pop holding ticket k receives exactly the k-th pushed value, every item at most once, live pops hold distinct tickets, the push order is stable. "
+             "Refuted (theorem + real replay, recorded as known finding): abort of a blocked pop breaks ticket uniqueness and strands an item. "
+             "The real concurrent_queue runs under the atomic-access gate with random interleavings and a Wing-Gong linearizability oracle; both queues run with real threads under a conservation/order/capacity oracle.",
+        note="PARTIAL: the model is at ticket level; micro_queue internals (pages, masks, per-lane counters, invalid entries, throwing constructors) and the bounded queue's monitors are explored, not modelled; "
+             "try_pop-empty truthfulness is checked by the linearizability oracle only. KNOWN-FINDING bqueue-abort-ticket-reuse is printed on every run.",
+        ref="4/C09, 8(c)"),
 }
 
 REASONS_TODO = "check not built yet in this round; the design (DESIGN.md section 4) applies and it is planned — listed here only because no check is registered"
